@@ -171,7 +171,15 @@ func (m *MonC04) NodeChanged(f *Fleet, n *Node, before, after *NodeState, actor 
 	// (c) no bounce: a marker older than the retention cutoff is never
 	// re-created on an instance that has no entry for the key
 	if m.SweeperOn && m.Retention > 0 {
-		cutoff := uint64(actor.At.Add(-m.Retention).UnixNano())
+		// The code takes "now" when the load operation starts, before it
+		// waits for the write lock (documented in Syncer.deletedCutoff): the
+		// earliest that can have been is when the sync loop left the yield
+		// before the load.
+		opStart := actor.At
+		if actor.Task != nil && !actor.Task.relAt.IsZero() && actor.Task.relAt.Before(opStart) {
+			opStart = actor.Task.relAt
+		}
+		cutoff := uint64(opStart.Add(-m.Retention).UnixNano())
 		for _, dbi := range sortedKeys(a) {
 			for _, k := range sortedKeys(a[dbi]) {
 				nv := a[dbi][k]
